@@ -9,7 +9,7 @@ from mc.props import kcommon
 
 # delete(never-existed id) is explored in the small 'deletes' configuration only: it counts as a
 # statement without being a write, which squares the (counter, pending) part of the state space
-ALPHA_SQLITE = ("ins1", "bulk2", "bulk49", "bulk50", "bulk51", "mix", "ups", "rep", "repl", "del", "get", "get_id", "count", "mkB2", "insB2", "updB2", "delB2", "updB1", "clock+11", "delB2x", "updB2x", "staleB2bulk", "badbulk", "bulk49B2")
+ALPHA_SQLITE = ("ins1", "bulk2", "bulk49", "bulk50", "bulk51", "mix", "ups", "rep", "repl", "del", "get", "get_id", "count", "mkB2", "insB2", "updB2", "delB2", "updB1", "clock+11", "delB2x", "updB2x", "staleB2bulk", "badbulk", "bulk49B2", "bulk130")
 ALPHA_PEEWEE = ("ins1", "bulk2", "bulk51", "mix", "ups", "ups2", "rep", "repl", "del", "delx", "get", "mkB2", "insB2", "updB2", "delB2", "updB1", "delB2x", "updB2x", "staleB2bulk", "badbulk")
 # equivalent-class duplicates left to the thorough tier (a second read flavour, a second bucket-update target)
 QUICK_DROPS = ("get_id", "count", "updB2", "bulk49")
